@@ -1,8 +1,9 @@
 // Package vfault provides numbered crash points for the fault-enumerating
 // checks. It is linked into an instrumented grog binary through the overlay.
-//   VERIF_FAULT_LOG=<file>   append one line per point instance ("site")
-//   VERIF_CRASH=<site>#<n>   SIGKILL the process when the n-th instance of site is reached
-//   VERIF_SIGNAL=<site>#<n>:<INT|TERM>  deliver the signal to the own process there
+//
+//	VERIF_FAULT_LOG=<file>   append one line per point instance ("site")
+//	VERIF_CRASH=<site>#<n>   SIGKILL the process when the n-th instance of site is reached
+//	VERIF_SIGNAL=<site>#<n>:<INT|TERM>  deliver the signal to the own process there
 package vfault
 
 import (
